@@ -35,30 +35,59 @@ def check(run: Run) -> None:
     callp = ("param", fd.pos_params[1])
 
     # ---------------- R1
-    loops = [n for n in own_nodes(fd) if isinstance(n, ast.For)]
+    # the filling loop lives in _fill_in_default_arguments or in a private helper it calls
+    from ..lib import call_sites_of, unit
+    from ..terms import subst  # noqa: F401
+
+    fd0, fa0, callp0 = fd, fa, callp
     ploops = []
-    for lp in loops:
-        it = strip_sites(fa.term_of(lp.iter, cfg.node_of(lp)))
-        if contains(it, lambda s: s[0] == "attr" and s[2] == "parameters"):
-            ploops.append(lp)
+    for g_ in unit(m, fd0):
+        ga_ = ctx.analysis(g_)
+        for lp_ in [n for n in own_nodes(g_) if isinstance(n, ast.For)]:
+            it = strip_sites(ga_.term_of(lp_.iter, ga_.cfg.node_of(lp_)))
+            if contains(it, lambda s: s[0] == "attr" and s[2] == "parameters"):
+                ploops.append((g_, lp_))
     if len(ploops) != 1:
         raise AnalysisError(f"expected one loop over the signature's parameters in _fill_in_default_arguments, found {len(ploops)}")
-    lp = ploops[0]
+    fd, lp = ploops[0]
+    inv = None
+    if fd is not fd0:
+        sites_ = [(c_, call_, sk_) for c_, call_, sk_ in call_sites_of(m, fd) if c_ is fd0]
+        if len(sites_) != 1:
+            raise AnalysisError(f"{fd.name} is not called exactly once from _fill_in_default_arguments")
+        inv = {strip_sites(fa0.term_of(a)): ("param", p_) for p_, a in zip(fd.pos_params[sites_[0][2]:], sites_[0][1].args)}
+        for k_ in sites_[0][1].keywords:
+            inv[strip_sites(fa0.term_of(k_.value))] = ("param", k_.arg)
+        if callp0 not in inv:
+            raise AnalysisError(f"{fd.name} does not receive the call node")
+        callp = inv[callp0]
+        fa = ctx.analysis(fd)
+        cfg = fa.cfg
     head = cfg.node_of(lp)
-    # the slot test: len(<args>) <= IDX   (or IDX >= len(..))
+    # the slot test: len(<args>) <= IDX in some spelling; `missing_pol` is the truth value that means "slot IDX is not filled yet"
     slot_tests = []
+    strict = {}
     for n in ast.walk(lp):
         if isinstance(n, ast.Compare) and len(n.ops) == 1:
             l, r = n.left, n.comparators[0]
-            if isinstance(l, ast.Call) and isinstance(l.func, ast.Name) and l.func.id == "len" and isinstance(n.ops[0], (ast.LtE, ast.Lt, ast.Eq)) and isinstance(r, ast.Name):
+            op = type(n.ops[0])
+            if isinstance(l, ast.Call) and isinstance(l.func, ast.Name) and l.func.id == "len" and isinstance(r, ast.Name) and op in (ast.LtE, ast.Lt, ast.Eq, ast.Gt, ast.GtE):
                 slot_tests.append((n, r.id, l.args[0]))
-            elif isinstance(r, ast.Call) and isinstance(r.func, ast.Name) and r.func.id == "len" and isinstance(n.ops[0], (ast.GtE, ast.Gt)) and isinstance(l, ast.Name):
+                strict[id(n)] = (op in (ast.LtE, ast.Gt), op in (ast.LtE, ast.Lt, ast.Eq))
+            elif isinstance(r, ast.Call) and isinstance(r.func, ast.Name) and r.func.id == "len" and isinstance(l, ast.Name) and op in (ast.GtE, ast.Gt, ast.Lt, ast.LtE):
                 slot_tests.append((n, l.id, r.args[0]))
+                strict[id(n)] = (op in (ast.GtE, ast.Lt), op in (ast.GtE, ast.Gt))
     run.check(len(slot_tests) == 1, "C07.R1", fd, lp, "one 'is slot i already filled' test in the loop", f"{len(slot_tests)} slot tests found")
     if len(slot_tests) == 1:
         test, idx_name, arr = slot_tests[0]
-        strict_ok = isinstance(test.ops[0], (ast.LtE, ast.GtE))
+        strict_ok, missing_pol = strict[id(test)]
         run.check(strict_ok, "C07.R1", fd, stmt_of(test), "slot i is missing iff len(args) <= i", f"slot test is '{ast.unparse(test)}': off by one")
+        # the keyword / default filling happens exactly on the "missing" side of the test
+        for c_ in [c for c in ast.walk(lp) if isinstance(c, ast.Call) and isinstance(c.func, ast.Name) and c.func.id == "_find_keyword"]:
+            side = [pol for a, pol in Facts(fa, c_, expand=False).atoms if ast.dump(a) == ast.dump(test)]
+            if isinstance(test.ops[0], (ast.NotEq,)):
+                side = []
+            run.check(side == [missing_pol], "C07.R1", fd, stmt_of(c_), "keywords / defaults are consulted exactly when the slot is missing", f"the filling branch runs when '{ast.unparse(test)}' is {side}, expected {missing_pol}: filled slots are overwritten or missing ones skipped")
         arr_t = strip_sites(fa.term_of(arr))
         run.check(contains(arr_t, lambda s: s == ("attr", callp, "args")), "C07.R1", fd, stmt_of(test), "the test counts the call's positional arguments", f"slot test counts {show(arr_t)[:60]}")
         incs = [n for n in ast.walk(lp) if isinstance(n, ast.AugAssign) and isinstance(n.target, ast.Name) and n.target.id == idx_name]
@@ -68,10 +97,10 @@ def check(run: Run) -> None:
             filt = "self" in inner
             run.check(filt, "C07.R1", fd, lp, "enumerate runs over the non-self parameters", "slot index comes from enumerate over all parameters including self: off by one for methods")
         else:
-            ok_inc = len(incs) == 1 and isinstance(incs[0].op, ast.Add) and isinstance(incs[0].value, ast.Constant) and incs[0].value.value == 1
+            ok_inc = len(incs) >= 1 and all(isinstance(i_.op, ast.Add) and isinstance(i_.value, ast.Constant) and i_.value.value == 1 for i_ in incs)
             run.check(ok_inc, "C07.R1", fd, incs[0] if incs else lp, "the slot index is advanced by one inside the loop", f"the slot index '{idx_name}' is compared but " + ("never advanced" if not incs else "not advanced by exactly one") + ": only the first declared parameter is ever normalised (later keywords stay keywords, later defaults are not filled, missing required arguments are not reported)", f"{idx_name} += 1 once per non-self parameter")
             if ok_inc:
-                inc_node = cfg.node_of(incs[0])
+                inc_nodes = [cfg.node_of(i_) for i_ in incs]
                 inits = [n for n in own_nodes(fd) if isinstance(n, ast.Assign) and any(isinstance(t, ast.Name) and t.id == idx_name for t in n.targets)]
                 run.check(len(inits) == 1 and isinstance(inits[0].value, ast.Constant) and inits[0].value.value == 0 and not any(x is inits[0] for x in ast.walk(lp)), "C07.R1", fd, inits[0] if inits else lp, "index starts at 0 before the loop", "slot index is not initialised to 0 before the loop (or is reset inside it)")
                 bad = []
@@ -79,7 +108,7 @@ def check(run: Run) -> None:
                 for pth, facts in paths:
                     is_self = any(_self_fact(a, pol) is True for a, pol in facts)
                     non_self = any(_self_fact(a, pol) is False for a, pol in facts)
-                    cnt = sum(1 for x in pth if x is inc_node)
+                    cnt = sum(1 for x in pth if any(x is i_ for i_ in inc_nodes))
                     want = 0 if is_self and not non_self else 1
                     if cnt != want:
                         bad.append((cnt, want))
@@ -110,8 +139,14 @@ def check(run: Run) -> None:
     apps = [c for c in ast.walk(lp) if isinstance(c, ast.Call) and isinstance(c.func, ast.Attribute) and c.func.attr == "append"]
     run.check(len(apps) == 2, "C07.R2", fd, lp, "keyword value and default are appended to the positional arguments", f"{len(apps)} appends in the filling loop")
     # rebuilt call
+    L, faL = fd, fa
+    fd, fa, callp = fd0, fa0, callp0
+    cfg = fa.cfg
     rt = strip_sites(fa.return_term())
-    call_alts = unphi_terms(rt[1][0]) if rt[0] == "tuple" and rt[1] else []
+    from ..lib import tuple_component
+
+    comp0 = tuple_component(rt, 0, 2)
+    call_alts = unphi_terms(comp0) if comp0 is not None else []
     rebuilt = [a for a in call_alts if a[0] == "upd"]
     run.check(callp in call_alts and len(rebuilt) == 1, "C07.R2", fd, fd.node, "returns the original call or one rebuilt copy", f"_fill_in_default_arguments returns {show(rt)[:140]}")
     for a in rebuilt:
@@ -156,6 +191,11 @@ def check(run: Run) -> None:
     # ---------------- R4
     pm = m.find_func("process_method_call", in_module=mod)
     ctx_pm = TermCtx(m, max_depth=1, opaque={"as_literal", "_find_keyword", "resolve_type_vars", "get_type_hints", "_fill_in_default_arguments", "type_follow_in_callbacks", "process_method_callbacks", "get_method_and_class"})
+    from ..lib import site_owner
+
+    pm0 = pm
+    pm, pm_inv = site_owner(m, ctx_pm, pm0, "_fill_in_default_arguments")
+    pm_node = pm_inv.get(("param", pm0.pos_params[1]), ("param", pm0.pos_params[1])) if pm is not pm0 else ("param", pm0.pos_params[1])
     fp = ctx_pm.analysis(pm)
     sites = [c for c in calls_in(pm) if isinstance(c.func, ast.Name) and c.func.id == "_fill_in_default_arguments"]
     run.check(len(sites) == 1, "C07.R4", pm, pm.node, "one filling site for method calls", f"{len(sites)} _fill_in_default_arguments sites in process_method_call")
@@ -175,8 +215,10 @@ def check(run: Run) -> None:
                 fpar = c.keywords[-1].arg
             elif len(fd.pos_params) >= 3:
                 fpar = fd.pos_params[2]
-            it = strip_sites(fa.term_of(lp.iter, cfg.node_of(lp)))
-            honoured = fpar is not None and (any(a == ("list", ()) for a in unphi_terms(it)) or it[0] == "ifexp") and contains(it, lambda s: s == ("param", fpar)) or (fpar is not None and any(isinstance(a, ast.Name) and a.id == fpar and pol for a, pol in Facts(fa, lp).atoms))
+            if fpar is not None and inv is not None:
+                fpar = inv.get(("param", fpar), (None, None))[1]
+            it = strip_sites(faL.term_of(lp.iter, faL.cfg.node_of(lp)))
+            honoured = fpar is not None and (any(a == ("list", ()) for a in unphi_terms(it)) or it[0] == "ifexp") and contains(it, lambda s: s == ("param", fpar)) or (fpar is not None and any(isinstance(a, ast.Name) and a.id == fpar and pol for a, pol in Facts(faL, lp).atoms))
             # ifexp(flag, params, [])
             if it[0] == "ifexp":
                 honoured = it[1] == ("param", fpar) and it[3] == ("list", ())
@@ -208,7 +250,7 @@ def check(run: Run) -> None:
         if "node" in kw:
             nt = strip_sites(fp.term_of(kw["node"]))
             fx = Facts(fp, c)
-            raw_ok = nt == ("param", pm.pos_params[1]) and any(isinstance(a, ast.Compare) and "len(return_results)" in ast.unparse(a) and pol for a, pol in fx.atoms)
+            raw_ok = nt == pm_node and any(isinstance(a, ast.Compare) and "len(return_results)" in ast.unparse(a) and pol for a, pol in fx.atoms)
             run.check(nt == filled or raw_ok, "C07.R2", pm, stmt_of(c), "candidate results carry the normalised call (the raw call only when no definition was found)", f"a candidate result carries {show(nt)[:60]} instead of the normalised call")
 
     pf = m.find_func("process_function_call", in_module=mod)
